@@ -9,6 +9,7 @@ import (
 	"strings"
 	"sync"
 	"time"
+	"unsafe"
 
 	"gopkg.in/typ.v4/chans"
 
@@ -39,7 +40,7 @@ type PubCall struct {
 
 // CtlOp is one call of the control task.
 type CtlOp struct {
-	Op     string `json:"op"` // sub subbuf unsub unsubnil unsubunknown unsuball
+	Op     string `json:"op"` // sub subbuf unsub unsubclone (= Unsub called on a WithOnly publisher of the target) unsubnil unsubunknown unsuball
 	Target int    `json:"target,omitempty"`
 	Buf    int    `json:"buf,omitempty"`
 	Delay  int    `json:"delay,omitempty"`
@@ -111,6 +112,9 @@ func genRecv(r *simrt.Rand) Recv {
 
 // Generate implements core.Harness.
 func (H) Generate(r *simrt.Rand, tier string) any {
+	if r.Intn(40) == 0 {
+		return flood(r)
+	}
 	s := &Scenario{DefBuf: r.Intn(3)}
 	if r.Intn(2) == 0 {
 		s.Timeout = []int64{int64(time.Millisecond), int64(time.Second), int64(time.Minute)}[r.Intn(3)]
@@ -176,6 +180,9 @@ func (H) Generate(r *simrt.Rand, tier string) any {
 				break
 			}
 			op.Op = "unsub"
+			if r.Intn(6) == 0 && !base252 {
+				op.Op = "unsubclone" // the publisher WithOnly returned is a PubSub too: unsubscribe through it
+			}
 			op.Target = r.Intn(live) // may name a subscription that was removed already
 			if op.Target == protect {
 				op.Op = "unsubunknown"
@@ -199,7 +206,7 @@ func (H) Generate(r *simrt.Rand, tier string) any {
 		subMode := r.Intn(3) == 0 // the second control task subscribes instead of unsubscribing
 		for i := range s.Ctl {
 			switch s.Ctl[i].Op {
-			case "unsub":
+			case "unsub", "unsubclone":
 				s.Ctl[i].Target %= half
 				if s.Ctl[i].Target == protect {
 					s.Ctl[i].Op = "unsubunknown"
@@ -239,11 +246,40 @@ func (H) Generate(r *simrt.Rand, tier string) any {
 			t := len(s.Subs) - 1
 			s.UnsubOnTimeout = t + 1
 			for i := range s.Ctl {
-				if (s.Ctl[i].Op == "unsub" && s.Ctl[i].Target == t) || s.Ctl[i].Op == "unsuball" {
+				if ((s.Ctl[i].Op == "unsub" || s.Ctl[i].Op == "unsubclone") && s.Ctl[i].Target == t) || s.Ctl[i].Op == "unsuball" {
 					s.Ctl[i].Op = "unsubnil"
 				}
 			}
 		}
+	}
+	return s
+}
+
+// flood is the backlog family: asynchronous publishes, without a timeout, towards
+// a subscriber that never receives, so that dozens of sender goroutines are
+// parked at once (and stay parked when the run ends, unless the channel is
+// unsubscribed, which must release them all). Anything the library keeps per
+// parked sender - a slot, a counter, a queue entry - piles up here, within the run
+// and, for package-level state, from run to run in the worker process.
+func flood(r *simrt.Rand) *Scenario {
+	s := &Scenario{}
+	s.Subs = append(s.Subs, SubSpec{Buf: r.Intn(2), Recv: Recv{Mode: "none"}})
+	if r.Intn(2) == 0 {
+		s.Subs = append(s.Subs, SubSpec{Buf: r.Intn(3), Recv: Recv{Mode: "good"}})
+	}
+	for p := 0; p < 1+r.Intn(2); p++ {
+		var calls []PubCall
+		for c := 0; c < 2+r.Intn(5); c++ {
+			if r.Intn(3) == 0 {
+				calls = append(calls, PubCall{Variant: "Pub", N: 1, Only: -1})
+			} else {
+				calls = append(calls, PubCall{Variant: "PubSlice", N: 4 + r.Intn(5), Only: -1})
+			}
+		}
+		s.Pubs = append(s.Pubs, calls)
+	}
+	if r.Intn(2) == 0 {
+		s.Ctl = append(s.Ctl, CtlOp{Op: "unsub", Target: 0, Delay: 5 + r.Intn(10)})
 	}
 	return s
 }
@@ -300,7 +336,7 @@ func (H) Shrink(sc any) []any {
 			}
 		}
 		for _, c := range append(append([]CtlOp(nil), s.Ctl...), s.Ctl2...) {
-			if c.Op == "sub" || c.Op == "subbuf" || (c.Op == "unsub" && c.Target >= n-1) {
+			if c.Op == "sub" || c.Op == "subbuf" || ((c.Op == "unsub" || c.Op == "unsubclone") && c.Target >= n-1) {
 				used = true
 			}
 		}
@@ -331,6 +367,11 @@ func (H) Shrink(sc any) []any {
 		if op.Delay > 0 {
 			c := clone()
 			c.Ctl[i].Delay = 0
+			out = append(out, c)
+		}
+		if op.Op == "unsubclone" {
+			c := clone()
+			c.Ctl[i].Op = "unsub"
 			out = append(out, c)
 		}
 	}
@@ -367,6 +408,7 @@ type subState struct {
 	stopped    bool
 	left       []int // values still in the channel buffer when the run ended
 	maybe      bool  // created while an UnsubAll was in progress: removed or not, either is right
+	viaClone   bool  // removed through a WithOnly publisher: the statement does not say whether the origin then still knows it
 }
 
 type callRec struct {
@@ -376,7 +418,6 @@ type callRec struct {
 	inv, ret int64
 	t0       int64 // virtual time at invocation
 	returned bool
-	liveKids int
 }
 
 type ctlRec struct {
@@ -384,6 +425,7 @@ type ctlRec struct {
 	inv, ret int64
 	err      error
 	want     error
+	orNil    bool // nil is right as well (Unsub on the origin after the removal through a WithOnly publisher)
 	done     bool
 }
 
@@ -406,6 +448,15 @@ type run struct {
 	unsubAllIn int64      // >0 while an UnsubAll call is in progress (its invocation stamp)
 	mu         sync.Mutex // real mutex: OnPubTimeout is invoked from several library goroutines
 	touts      []delivery
+	sends      []sendRec // every completed send of the run, from the simulator's observer (under mu)
+}
+
+// sendRec is one completed channel send: which value, into which channel, and
+// the step at which the channel (its buffer or a receiver) accepted it.
+type sendRec struct {
+	tok  int
+	ch   unsafe.Pointer
+	step int64
 }
 
 func (r *run) receiver(st *subState) {
@@ -486,6 +537,13 @@ func (H) Execute(scAny any, cfg simrt.Config, st *core.Stats) (*simrt.Outcome, *
 	r.calls = make([][]callRec, len(sc.Pubs))
 	r.pubsDone = make([]bool, len(sc.Pubs))
 	r.ctlDone = [2]bool{len(sc.Ctl) == 0, len(sc.Ctl2) == 0}
+	cfg.OnSend = func(ch unsafe.Pointer, v any, step int64) {
+		if tok, isInt := v.(int); isInt {
+			r.mu.Lock()
+			r.sends = append(r.sends, sendRec{tok, ch, step})
+			r.mu.Unlock()
+		}
+	}
 	s := simrt.New(cfg)
 	s.Go(func() {
 		for _, sp := range sc.Subs {
@@ -545,7 +603,6 @@ func (H) Execute(scAny any, cfg simrt.Config, st *core.Stats) (*simrt.Outcome, *
 							mine[k] = 999000 + k
 						}
 					}
-					cr.liveKids = simrt.UnfinishedSendersSince(cr.inv)
 					cr.ret = simrt.Stamp()
 					cr.returned = true
 				}
@@ -599,7 +656,7 @@ func (H) Execute(scAny any, cfg simrt.Config, st *core.Stats) (*simrt.Outcome, *
 						r.addSub(-1, op.Recv)
 					case "subbuf":
 						r.addSub(op.Buf, op.Recv)
-					case "unsub":
+					case "unsub", "unsubclone":
 						t := op.Target
 						r.tabMu.Lock()
 						if t >= r.nsubs {
@@ -614,11 +671,18 @@ func (H) Execute(scAny any, cfg simrt.Config, st *core.Stats) (*simrt.Outcome, *
 						st := r.subs[t]
 						if st.removedInv >= 0 {
 							cr.want = chans.ErrAlreadyUnsubscribed
+							cr.orNil = st.viaClone && op.Op == "unsub"
 						} else {
 							st.removedInv = cr.inv
+							st.viaClone = op.Op == "unsubclone"
 							simrt.Count("fault.unsub", 1)
 						}
-						cr.err = r.ps.Unsub(st.ch)
+						if op.Op == "unsubclone" {
+							simrt.Count("fault.unsub_via_withonly", 1)
+							cr.err = r.ps.WithOnly(st.ch).Unsub(st.ch)
+						} else {
+							cr.err = r.ps.Unsub(st.ch)
+						}
 						if st.removedRet < 0 {
 							st.removedRet = simrt.Stamp()
 						}
@@ -716,7 +780,7 @@ func (r *run) check(out *simrt.Outcome, st *core.Stats) *core.Violation {
 		if !c.done {
 			continue
 		}
-		if c.err != c.want {
+		if c.err != c.want && !(c.orNil && c.err == nil) {
 			return &core.Violation{Signature: "wrong-error:" + c.op.Op, Detail: fmt.Sprintf("%+v returned %v, want %v", c.op, c.err, c.want)}
 		}
 	}
@@ -780,15 +844,25 @@ func (r *run) check(out *simrt.Outcome, st *core.Stats) *core.Violation {
 			return &core.Violation{Signature: "removed-but-not-closed", Detail: fmt.Sprintf("subscription %d was removed but its receiver never saw the channel closed", si)}
 		}
 	}
-	// Wait variants return only after every hand-off has finished
-	for p := range r.calls {
-		for _, c := range r.calls[p] {
-			if c.returned && isWait(c.pc.Variant) && c.liveKids > 0 {
-				return &core.Violation{Signature: "wait-returned-early", Detail: fmt.Sprintf("%s returned while %d of the goroutines it started had not started yet or were still in a channel send: a hand-off was not finished", c.pc.Variant, c.liveKids)}
-			}
-			if c.returned && isSync(c.pc.Variant) && c.liveKids > 0 {
-				return &core.Violation{Signature: "wait-returned-early", Detail: fmt.Sprintf("%s returned while %d goroutines it started had not started yet or were still in a channel send: a hand-off was not finished", c.pc.Variant, c.liveKids)}
-			}
+	// Wait and Sync variants return only after every hand-off has finished: no
+	// channel accepts one of the call's events at a step after the call's return
+	// (whichever goroutine does the sending - one per event, a per-subscription
+	// pump, the caller itself). And nothing is delivered to a channel after its
+	// removal: no send is accepted after the Unsub/UnsubAll that removed it returned.
+	subOf := map[unsafe.Pointer]int{}
+	for si := 0; si < r.nsubs; si++ {
+		subOf[simrt.ChanKey(r.subs[si].ch)] = si
+	}
+	for _, sd := range r.sends {
+		si, isSub := subOf[sd.ch]
+		if !isSub {
+			continue
+		}
+		if c := byTok[sd.tok]; c != nil && c.returned && (isWait(c.pc.Variant) || isSync(c.pc.Variant)) && sd.step > c.ret {
+			return &core.Violation{Signature: "wait-returned-early", Detail: fmt.Sprintf("%s returned at step %d, but its event %d was handed to subscription %d only at step %d: a hand-off was not finished", c.pc.Variant, c.ret, sd.tok, si, sd.step)}
+		}
+		if s := r.subs[si]; !s.maybe && s.removedRet >= 0 && sd.step > s.removedRet {
+			return &core.Violation{Signature: "delivery-after-removal", Detail: fmt.Sprintf("subscription %d was removed (the call returned at step %d) and its channel still accepted event %d at step %d", si, s.removedRet, sd.tok, sd.step)}
 		}
 	}
 	// exactly once / delivery-or-timeout accounting per event
